@@ -17,7 +17,9 @@ package s3proxy
 import (
 	"context"
 	"crypto/tls"
+	"net"
 	"net/http"
+	"net/url"
 
 	"github.com/aws/aws-sdk-go-v2/aws"
 	v4 "github.com/aws/aws-sdk-go-v2/aws/signer/v4"
@@ -37,6 +39,14 @@ func (s *S3Proxy) getClientWithCtx(ctx context.Context) (*s3.Client, error) {
 	if s.endpoint != "" {
 		return s3.NewFromConfig(cfg, func(o *s3.Options) {
 			o.BaseEndpoint = &s.endpoint
+			// An endpoint given by address cannot be reached under
+			// "<bucket>.<address>": the sdk knows that for ordinary bucket
+			// names, but for http endpoints it still builds such a host
+			// from a bucket name with dots (every label three characters
+			// or longer), and the request fails to resolve.
+			if u, err := url.Parse(s.endpoint); err == nil && net.ParseIP(u.Hostname()) != nil {
+				o.UsePathStyle = true
+			}
 		}), nil
 	}
 
